@@ -249,6 +249,20 @@ func cmdCheck(args []string) {
 	var items []item
 	var unsupported []string
 	var toolErrors []string
+	var structural []DFResult
+	{
+		var ub []string
+		for nm := range w.unbound {
+			ub = append(ub, nm)
+		}
+		sort.Strings(ub)
+		for _, nm := range ub {
+			ct := w.unbound[nm]
+			if hasProp(ct.Props, cfg.ID) || len(ct.Props) == 0 {
+				structural = append(structural, DFResult{Name: nm + "#contract-binds", OK: false, Detail: "the function under contract does not exist (any more); every clause of its contract is undecided (" + ct.Loc + ")", At: ct.Loc})
+			}
+		}
+	}
 	perFn := map[string][2]int{}
 	converted := 0
 	for _, nm := range names {
@@ -261,7 +275,8 @@ func cmdCheck(args []string) {
 			continue
 		}
 		if len(r.Stale) > 0 {
-			toolErrors = append(toolErrors, "contract-stale "+nm+": "+strings.Join(r.Stale, "; "))
+			// a clause refers to something that no longer exists: what it stated is undecided - a failed structural obligation
+			structural = append(structural, DFResult{Name: nm + "#contract-stale", OK: false, Detail: "contract clauses refer to names that do not exist (any more): " + strings.Join(r.Stale, "; "), At: ""})
 			continue
 		}
 		if r.Unsupported != "" {
@@ -379,6 +394,7 @@ func cmdCheck(args []string) {
 	for _, p := range cfg.Passes {
 		dfObls = append(dfObls, w.runPass(p, cfg, inSet)...)
 	}
+	dfObls = append(dfObls, structural...)
 	if len(items) == 0 && len(dfObls) == 0 {
 		toolErrors = append(toolErrors, "vacuity: zero obligations generated for "+cfg.ID)
 	}
